@@ -335,7 +335,7 @@ def main(pid, tier, seed, what):
     lib.build_coq()
     lib.build_driver()
     lib.build_harness()
-    n = lib.ncases(150 if tier == "quick" else 16000)
+    n = lib.ncases(240 if tier == "quick" else 16000)
     nops = 25 if tier == "quick" else 40
     rng = random.Random(seed * 7919 + int(pid[1:]))
     d = lib.casedir(pid)
